@@ -112,8 +112,24 @@ def phy_rec(memtype, cl, cwl, nphases, **kw):
     return Rec(f, "PhySettings")
 
 
-def prove_all(prefix, I, paths, ensures, pre):
-    """like c16.discharge: one result per clause over all paths, plus side obligations by kind"""
+def native_ret(fn, memtype, nph, model, defaults):
+    """call the REAL generator with the model's concrete values"""
+    def g(name):
+        v = model.get(name)
+        if v is None:
+            return defaults.get(name)
+        return int(_num(v))
+    ps = _PS()
+    ps.memtype, ps.nphases, ps.is_rdimm = memtype, nph, False
+    ps.cl, ps.cwl = g("cl"), g("cwl")
+    ts = _PS()
+    ts.tWR, ts.tWTR, ts.fine_refresh_mode = g("tWR_cyc") or 2, g("tWTR_cyc") or 2, "1x"
+    return fn(ps, ts)
+
+
+def prove_all(prefix, I, paths, ensures, pre, native=None):
+    """like c16.discharge: one result per clause over all paths, plus side obligations by kind.
+    native(model) -> concrete return value of the real function for the model's inputs (replay)"""
     out = []
     for name, fn in ensures.items():
         t0 = time.time()
@@ -133,6 +149,17 @@ def prove_all(prefix, I, paths, ensures, pre):
         r = _res("%s/pyvc/%s" % (prefix, name), status, time.time() - t0, backend)
         if model is not None:
             r["model"] = {str(d): str(model[d]) for d in model.decls()}
+            if native is not None:
+                try:
+                    ret_c = native(r["model"])
+                    subs = [(d(), model[d]) for d in model.decls() if d.arity() == 0]
+                    g_c = fn(ret_c, {})
+                    g_c = z3.simplify(z3.substitute(g_c, *subs)) if not isinstance(g_c, bool) else z3.BoolVal(g_c)
+                    r["reproduced"] = bool(z3.is_false(g_c))
+                    r["native"] = {"real_function_returned_mode_registers": {str(k): v for k, v in mode_registers(ret_c[0])[0].items()
+                                                                             if isinstance(v, int)}}
+                except Exception as e:  # noqa
+                    r["native_error"] = "%s: %s" % (type(e).__name__, e)
         out.append(r)
     groups = {}
     for kind, pc, goal, where in I.obligations:
@@ -233,7 +260,8 @@ def legacy_task(cfg, tier):
             if memtype == "DDR2":
                 ens["mode_register_sequence_shape"] = lambda ret, env: z3.BoolVal(
                     mode_registers(ret[0])[1] == [3, 2, 1, 0, 0, 1, 1])
-            res += prove_all("C17/%s[nphases=%d]" % (fn.__name__, nph), I, paths, ens, pre)
+            res += prove_all("C17/%s[nphases=%d]" % (fn.__name__, nph), I, paths, ens, pre,
+                             native=lambda m, fn=fn, memtype=memtype, nph=nph: native_ret(fn, memtype, nph, m, {}))
     # DDR2 write recovery: WR field = clocks - 1 must cover tWR = 15 ns for every DDR2 clock (tCK 2.5..5 ns)
     I = new_interp()
     tck = z3.Real("tck_ns")
@@ -311,7 +339,8 @@ def ddr34_task(cfg, tier):
                     mode_registers(ret[0])[1] == [3, 6, 5, 4, 2, 1, 0]),
                 "mr1_returned_for_write_leveling_is_the_programmed_one": lambda ret, env: ret[1][1] == mrs(ret)[1],
             }
-        res += prove_all("C17/%s[nphases=%d,default_cl_cwl_pairs]" % (fn.__name__, nph), I, paths, ens, pre)
+        res += prove_all("C17/%s[nphases=%d,default_cl_cwl_pairs]" % (fn.__name__, nph), I, paths, ens, pre,
+                         native=lambda m, nph=nph: native_ret(fn, memtype, nph, m, {}))
     # write recovery, parametric: datasheet tWR = 15 ns, any clock in the JEDEC range, ratio d, timing.tWR from C16's post
     for d in (2, 4):
         I = new_interp()
@@ -571,7 +600,7 @@ def finalize(res):
         if r["status"] == "failed" and "replay" not in r:
             path = replay_path("C17", r["id"])
             rp = {"property": "C17", "obligation": r["id"], "module": "contracts.c17", "kind": "pyargs",
-                  "args": r.get("model"), "where": r.get("where"),
+                  "args": r.get("model"), "where": r.get("where"), "native": r.get("native"),
                   "solver": {"name": r["backend"], "status": "obligation refuted", "model": r.get("model")},
                   "reproduced": bool(r.get("reproduced"))}
             if not r.get("reproduced") and r.get("model") and "write_recovery" in r["id"]:
